@@ -41,12 +41,26 @@ def with_listen(spec):
     return spec
 
 
+def with_client(spec, props_module):
+    """the client half of C04 / C05 lives in Model.Client: the `client` suite (real Connection/MethodCall over a
+    socketpair against a scripted server) and the client-side theorems of Props/C07.lean are part of the check"""
+    spec = dict(spec)
+    spec["suites"] = spec["suites"] + [{"name": "client", "nontrivial": r"\((ok|err|inf|ip|mnf|mni|reply) "}]
+    spec["lean"] = spec["lean"] + [props_module]
+    spec["rule"] = spec["rule"] + ("; plus suite client: operation sequences {call, more+next*, oneway, upgrade, second send, new call "
+                                   "while iterating} on the real Connection/MethodCall against a scripted peer, and 2..8 threads sharing one connection")
+    return spec
+
+
 PROPS = {
     "C01": with_listen(wire("C01", ["`Proper` method implementations (continues* + one final, or failure) for the exactly-once clause"])),
     "C02": with_listen(wire("C02")),
     "C03": wire("C03"),
-    "C04": wire("C04", ["client half (oneway() performs no read) is covered by C07's client model"]),
-    "C05": wire("C05", ["replies handed to reply_struct are built by Reply::parameters/error (no continues member of their own)"]),
+    "C04": with_client(wire("C04", ["client half: theorems C04_client_oneway / C04_client_oneway_never_reads in Props/C07.lean over Model.Client"]),
+                       "VarlinkVerif.Props.C07"),
+    "C05": with_client(wire("C05", ["replies handed to reply_struct are built by Reply::parameters/error (no continues member of their own)",
+                                    "client half: theorem C05_iteration in Props/C07.lean over Model.Client"]),
+                       "VarlinkVerif.Props.C07"),
     "C06": with_listen(wire("C06", ["absence of panics in serde_json/std for arbitrary bytes is observed on the generated inputs, not proved"])),
 }
 
